@@ -418,11 +418,25 @@ def full_members(lang: Iterable, d: int, leafless_ok=True):
 # grammar analysis reference (C05)
 
 
-def ref_min_depth(spec, expansion_depthing=False) -> dict[str, int]:
-    """Least fixed point of the AND/OR depth equations, per class name (tree-depth mode):
+def may_be_empty_list(t) -> bool:
+    """A list-typed field that admits the empty list (un-annotated lists have length 0..10)."""
+    if isinstance(t, list) and t[0] == "list":
+        return True
+    if isinstance(t, list) and t[0] == "ann" and isinstance(t[1], list) and t[1][0] == "list":
+        mh = t[2]
+        if mh[0] in ("LSB", "LSBW"):
+            return mh[1] == 0
+        if mh[0] == "Dep":
+            return True
+    return False
+
+
+def ref_min_depth(spec, expansion_depthing=False, exact=False) -> dict[str, int]:
+    """Least fixed point of the AND/OR depth equations, per class name:
     abstract = min over productions; concrete = 1 + max over fields (0 if no fields);
-    list = element (an empty list is always possible when un-annotated or LSB(0,_): then 0);
-    union = min; tuple = max; annotated = inner."""
+    union = min; tuple = max; annotated = inner; list = its element type -- the library's
+    convention -- or, with exact=True, 0 when the list may be empty (the depth of the
+    genuinely shallowest derivable program)."""
     view = SpecView(spec)
     names = list(view.types.keys())
     dist = {n: INF for n in names}
@@ -435,9 +449,14 @@ def ref_min_depth(spec, expansion_depthing=False) -> dict[str, int]:
         if k == "ref":
             return dist[t[1]]
         if k == "list":
-            return e + td(t[1])
+            return e if exact else e + td(t[1])
         if k == "ann":
-            return td(t[1])
+            inner = t[1]
+            if isinstance(inner, list) and inner[0] == "list":
+                if exact and may_be_empty_list(t):
+                    return e
+                return e + td(inner[1])
+            return td(inner)
         if k == "union":
             return e + min(td(x) for x in t[1:])
         if k == "tuple":
